@@ -370,12 +370,21 @@ class HostileWorld(World):
             # workers encode replies for hostile peers and witnesses at the same time: pre-emption inside the serializers,
             # and the hostile peers speak the witnesses' serializer so that they share its encoder
             plan["ser_lines"] = True
-            plan["p_line"] = rng.choice([0.02, 0.1])
+            plan["p_line"] = rng.choice([0.05, 0.2, 0.4])
+            if rng.random() < 0.6:
+                plan["serializer"] = "msgpack"       # the serializer whose encoder objects are the most tempting to share
             sid = SER_IDS[plan["serializer"]]
             for peer in peers:
                 for m in peer["msgs"]:
                     if rng.random() < 0.8:
                         m["ser"] = sid
+            # one peer that, properly connected, keeps provoking error replies (exception objects go through the
+            # serializer's conversion hook) while the witnesses call without a pause
+            peers.insert(0, {"start": 0, "gap": 0, "read": True, "end": "close",
+                             "msgs": [{"base": "connect", "obj": "tok", "ser": sid, "arg": 0, "seq": 0, "mut": []}] +
+                                     [{"base": "boom", "obj": "tok", "ser": sid, "arg": rng.choice([1, 2, 5, 7, 8]), "seq": 1 + k, "mut": []}
+                                      for k in range(rng.randint(2, 5))]})
+            plan["witness_gap"] = 0.0
         if commt and rng.random() < 0.3:
             # a refused peer that stays connected and keeps dribbling bytes (one every 0.2 s, for 25 s): after the refusal the
             # daemon must be done with it
